@@ -13,6 +13,7 @@ mod c02;
 mod c04;
 mod c05;
 mod c14;
+mod c18;
 mod lall;
 mod cfggen;
 
@@ -41,6 +42,7 @@ fn main() {
                 "KALL" => kall::gen(tier, seed),
                 "C02" => c02::gen(tier, seed),
                 "C14" => c14::gen(tier, seed),
+                "C18" => c18::gen(tier, seed),
                 "C05" => c05::gen(tier, seed),
                 _ => {
                     eprintln!("unknown property {prop}");
